@@ -106,6 +106,7 @@ pub const RESP_POISON: u8 = 0xff;
 
 thread_local! {
     static RESP_BUF: std::cell::RefCell<Vec<u8>> = std::cell::RefCell::new(vec![RESP_POISON; 65535]);
+    static RESP_DIRTY: std::cell::Cell<bool> = const { std::cell::Cell::new(false) };
 }
 
 /// Calls `Server::handle_message` with a 65 535-octet response buffer (always
@@ -127,9 +128,29 @@ pub fn handle<C: quandary::db::Catalog>(server: &Server<C>, req: &[u8], src: IpA
         .max(512)
             + 1024;
         let end = touched.min(buf.len());
-        buf[..end].fill(RESP_POISON);
+        if !RESP_DIRTY.with(|d| d.get()) {
+            buf[..end].fill(RESP_POISON);
+        }
         r
     })
+}
+
+/// Starts a stretch in which this thread's response buffer is NOT restored
+/// to the poison between calls of `handle`: every call starts on whatever the
+/// earlier calls of the stretch left behind (what a provider's reused buffer
+/// looks like). Stale but plausible content - a compression scan that strays
+/// beyond what it has written finds labels that match. The buffer is poisoned
+/// completely at the start, so the contents before call k are a function of
+/// the calls 0..k of the stretch alone.
+pub fn dirty_begin() {
+    RESP_BUF.with(|b| b.borrow_mut().fill(RESP_POISON));
+    RESP_DIRTY.with(|d| d.set(true));
+}
+
+/// Ends the stretch started by `dirty_begin` and restores the poison.
+pub fn dirty_end() {
+    RESP_DIRTY.with(|d| d.set(false));
+    RESP_BUF.with(|b| b.borrow_mut().fill(RESP_POISON));
 }
 
 fn handle_in<C: quandary::db::Catalog>(server: &Server<C>, req: &[u8], info: ReceivedInfo, buf: &mut [u8]) -> Result<Option<Vec<u8>>, String> {
